@@ -12,7 +12,7 @@ pub fn run() {
     let pk1 = "5120a1a1a1a1a1a1a1a1a1a1a1a1a1a1a1a1a1a1a1a1a1a1a1a1a1a1a1a1a1a1a1".to_string();
     let pk2 = "5120a2a2a2a2a2a2a2a2a2a2a2a2a2a2a2a2a2a2a2a2a2a2a2a2a2a2a2a2a2a2a2".to_string();
     let a2 = hist::pk_address(&pk2);
-    let h = format!("0x{:064x}", 0xe1u64);
+    let h = crate::hist::bh((0xe1u64) as u64);
     let mut i = 0u64;
     let mut tx = |d: &mut Driver, name: &str, op: Op| {
         let r = d.exec(op);
